@@ -123,6 +123,29 @@ func opFacts(s *ast.Schema, doc *ast.QueryDocument, op *ast.OperationDefinition,
 				}
 			}
 		}
+		// fields repeated under one response key are one field whose sub-selections are merged (field collection):
+		// what is next to what is decided on the merged selection
+		{
+			merged := map[string]ast.SelectionSet{}
+			count := map[string]int{}
+			typ := map[string]*ast.Definition{}
+			for _, sel := range set {
+				if x, ok := sel.(*ast.Field); ok && x.SelectionSet != nil && x.Definition != nil && x.Definition.Type != nil {
+					key := x.Alias
+					if key == "" {
+						key = x.Name
+					}
+					merged[key] = append(merged[key], x.SelectionSet...)
+					count[key]++
+					typ[key] = s.Types[x.Definition.Type.Name()]
+				}
+			}
+			for _, key := range sortedKeys(count) {
+				if count[key] > 1 && depth < 12 {
+					walk(merged[key], typ[key], depth+1)
+				}
+			}
+		}
 		for _, sel := range set {
 			switch x := sel.(type) {
 			case *ast.Field:
@@ -355,6 +378,22 @@ func keyReuse(op *ast.OperationDefinition, tags map[string]bool) {
 // looked at): which selections below an abstract-typed field need another service than the one that answers
 // that field.  Only these are the inputs of KF-08 / KF-12; member fragments and interface-level fields whose
 // fields all live at the answering service are forwarded as they are.
+func isRootDef(s *ast.Schema, d *ast.Definition) bool {
+	return d != nil && (d == s.Query || d == s.Mutation || d == s.Subscription)
+}
+
+func implementsNodeDef(d *ast.Definition) bool {
+	if d == nil {
+		return false
+	}
+	for _, i := range d.Interfaces {
+		if i == "Node" {
+			return true
+		}
+	}
+	return false
+}
+
 func routeFacts(s *ast.Schema, op *ast.OperationDefinition, route func(typ, field string) (string, bool), tags map[string]bool) {
 	isAbs := func(d *ast.Definition) bool { return d != nil && (d.Kind == ast.Interface || d.Kind == ast.Union) }
 	var walk func(set ast.SelectionSet, parent *ast.Definition, cur string)
@@ -409,7 +448,9 @@ func routeFacts(s *ast.Schema, op *ast.OperationDefinition, route func(typ, fiel
 							}
 						}
 					}
-				} else if u, ok := route(parent.Name, x.Name); ok {
+				} else if u, ok := route(parent.Name, x.Name); ok && (isRootDef(s, parent) || implementsNodeDef(parent)) {
+					// the fields of a plain (non-Node) type come from whichever service answered the object: the
+					// table names just one of the services declaring the type
 					owner = u
 				}
 				if x.SelectionSet != nil {
